@@ -171,9 +171,14 @@ def plan(tier, seed):
     for s_ in range(16):
         tasks.append(('plain', 'mc.props.c04:t_family', {'family': 'anchored10', 'shard': s_, 'nshard': 16}))
         tasks.append(('plain', 'mc.props.c04:t_family', {'family': 'anchored11', 'shard': s_, 'nshard': 16, 'stride': 1 if tier != 'quick' else 4, 'offset': seed}))
-    for sch in ('u', 'g', 'K'):
+    for sch in ('u', 'g', 'K', 'b', 'n'):
         plain(2, 2, 1, scheme=sch)
         plain(3, 1, 1, scheme=sch)
+    # wave 6: arithmetic progressions with a prime step through spaces that are far too large to enumerate
+    # (DFA(6,2) has 8.4e11 automata, DFA(5,2) 1.6e9, DFA(7,2) 6e14); the step is coprime to every digit base of the index
+    plain(5, 2, 16, stride=20011 if tier == 'quick' else 997, offset=seed % 997)
+    plain(6, 2, 32, stride=8000051 if tier == 'quick' else 400009, offset=seed % 400009)
+    plain(7, 2, 16, stride=20000000089 if tier == 'quick' else 1000000007, offset=seed % 1000003)
     plain(1, 5, 1, letters='w')
     plain(2, 5, 4, letters='w')
     plain(2, 6, 8, letters='w', stride=4, offset=seed % 4)
@@ -205,7 +210,7 @@ def plan(tier, seed):
         bounds = {'plain': 'DFA(n<=3,k<=2), DFA(4,1), DFA(4,2) (4 194 304), DFA(5,1) (500 000) all', 'scheduled': 'd<=3 on DFA(n<=2,k<=2), DFA(3,1); d<=2 on DFA(3,2), DFA(4,1); d<=1 on DFA(5,1) stride 1/2'}
     return {'tasks': tasks, 'bounds': bounds, 'exhaustive': True,
             'rule': 'every labelled DFA in the bounds x 3 minimisers; scheduled layer: every execution with <= d set-order deviations (boost lists) from the canonical global order, plus one execution under CPython order; states = distinct trace digests (+ instances in the plain layer); non-trivial = at least one merge and one split (1 < #classes < |Q|)',
-            'assumptions': ['set iteration order is a global total order on elements within one execution (DESIGN 3.4)', 'strided layers select index % K == VERIF_SEED % K', 'small spaces also with GambaTools.enable_logging = True and through one live DFA rewritten in place', 'wave 5: anchored-swap family (13-14 states, 4 letters, all states pairwise distinguishable, 1 560 / 1 848 automata), alphabets of 5-6 letters, names with non-decimal digits / generated-looking / keyword-like, transition dict filled in other orders, per-object set-order policies on DFA(2,2), DFA(3,1)']}
+            'assumptions': ['set iteration order is a global total order on elements within one execution (DESIGN 3.4)', 'strided layers select index % K == VERIF_SEED % K', 'small spaces also with GambaTools.enable_logging = True and through one live DFA rewritten in place', 'wave 5: anchored-swap family (13-14 states, 4 letters, all states pairwise distinguishable, 1 560 / 1 848 automata), alphabets of 5-6 letters, names with non-decimal digits / generated-looking / keyword-like, transition dict filled in other orders, per-object set-order policies on DFA(2,2), DFA(3,1)', 'wave 6: prime-step progressions through DFA(5,2), DFA(6,2), DFA(7,2) (about 78 000 / 104 000 / 30 000 automata in quick): not exhaustive for these spaces, stated as what it is; names made of braces / parentheses and normalisation-unstable code points']}
 
 
 def finish(acc, spec):
